@@ -2,6 +2,7 @@ package mon
 
 import (
 	"math/rand/v2"
+	"reflect"
 	"runtime"
 	"sync"
 	"sync/atomic"
@@ -110,7 +111,7 @@ func handle(site Site, obj any) {
 	}
 	if gs := gates.Load(); gs != nil {
 		for _, g := range *gs {
-			if g.site == site && (g.obj == nil || g.obj == obj) {
+			if g.site == site && g.matches(obj) {
 				g.arrive()
 			}
 		}
@@ -153,6 +154,7 @@ var spinSink atomic.Int64
 type Gate struct {
 	site    Site
 	obj     any
+	objPtr  uintptr // if non-zero: match the hook object by pointer value
 	nth     int64
 	count   atomic.Int64
 	arrived chan struct{}
@@ -174,6 +176,38 @@ func NewGate(site Site, obj any, nth int) *Gate {
 	ns = append(ns, g)
 	gates.Store(&ns)
 	gateMu.Unlock()
+	return g
+}
+
+func (g *Gate) matches(obj any) bool {
+	if g.objPtr != 0 {
+		if obj == nil {
+			return false
+		}
+		v := reflect.ValueOf(obj)
+		return v.Kind() == reflect.Pointer && v.Pointer() == g.objPtr
+	}
+	return g.obj == nil || g.obj == obj
+}
+
+// FieldPtr returns the pointer stored in the (possibly unexported) pointer field of the struct x points to.
+// It is used to aim a gate at an inner object the library does not export (0 if not found).
+func FieldPtr(x any, field string) uintptr {
+	v := reflect.ValueOf(x)
+	if v.Kind() != reflect.Pointer || v.Elem().Kind() != reflect.Struct {
+		return 0
+	}
+	f := v.Elem().FieldByName(field)
+	if !f.IsValid() || f.Kind() != reflect.Pointer {
+		return 0
+	}
+	return f.Pointer()
+}
+
+// NewGatePtr arms a gate for the nth arrival at site of the object with the given pointer value.
+func NewGatePtr(site Site, ptr uintptr, nth int) *Gate {
+	g := NewGate(site, nil, nth)
+	g.objPtr = ptr
 	return g
 }
 
